@@ -91,6 +91,13 @@ def run(rep, tier):
             lb = [0.0] * nrows
         mshape = ms[0] if nrows else 5
         kw = dict(x_name=names[0], y_name=names[1])
+        decoy = None
+        if nrows and r.random() < 0.3:
+            # params_map takes precedence over a column that happens to be named like the model parameter
+            decoy = names[2] + '_fit'
+            tbl[decoy] = tbl[names[2]]
+            tbl[names[2]] = tbl[names[2]] * 3 + (1.0 if unit is None else 1.0 * unit)
+            kw['params_map'] = {names[2]: decoy}
         if not (per_row_shape and nrows):
             kw['model_shape'] = mshape
         replay = {'model': kind, 'shape': [ny, nx], 'table': {c: np.asarray(getattr(tbl[c], 'value', tbl[c])).tolist() for c in tbl.colnames},
@@ -118,7 +125,7 @@ def run(rep, tier):
         for i in range(nrows):
             m = model.copy()
             for pn in names:
-                setattr(m, pn, tbl[pn][i])
+                setattr(m, pn, tbl[decoy if (decoy and pn == names[2]) else pn][i])
             with warnings.catch_warnings():
                 warnings.simplefilter('ignore')
                 v = m(xx, yy)
@@ -133,7 +140,7 @@ def run(rep, tier):
             clipped |= (not ov) or lo_y < 0 or lo_x < 0 or lo_y + sy > ny or lo_x + sx > nx
             unit_expected |= (ov and unit is not None)
         rep.case((kind, ny, nx, tuple(map(tuple, [np.asarray(getattr(tbl[c], 'value', tbl[c])).tolist() for c in tbl.colnames]))),
-                 overlap_any and clipped, kind=f'{kind}:rows{min(nrows, 3)}' + (':unit' if unit is not None else ''),
+                 overlap_any and clipped, kind=f'{kind}:rows{min(nrows, 3)}' + (':unit' if unit is not None else '') + (':params_map' if decoy else ''),
                  sample={'model': kind, 'shape': [ny, nx], 'nrows': nrows, 'per_row_shape': per_row_shape})
         has_unit = hasattr(img, 'unit')
         # (S) units regardless of which rows overlap
